@@ -140,6 +140,40 @@ def r04_1(ctx, fx):
             r = fn.reach([rp.node for rp in rps], cut=good | none_edges, after=True)
             ctx.ob("R04.1", "poll_next/alloc#%d-behind-size<=max_size" % i, bool(good) and c.node not in r, site=fn.site(c.node), cfg=fx.cfg,
                    detail="a remote-chosen length allocates only after it was compared with the configured maximum")
+        # without a maximum (`UnsignedVarint(None)`) the announced length is not trusted either: what is allocated up front on that
+        # edge is bounded by a constant (`min(size, CHUNK)`), the rest grows as payload arrives.  zeroed(2^63) is a capacity-overflow
+        # panic, zeroed(2^45) aborts in the allocator - "a malformed incoming length yields an error, never a panic"
+        some_edges = set()
+        for sw in fn.discr_switches():
+            if any((sw[0], lab) in none_edges for lab in fn.variant_edges(sw, "None")):
+                for lab in fn.variant_edges(sw, "Some"):
+                    if (sw[0], lab) not in none_edges:
+                        some_edges.add((sw[0], lab))
+        from_none = fn.reach([n_ for sw_, lab in none_edges for n_, l in fn.succs(sw_) if l == lab], cut=some_edges) if none_edges else set()
+        for i, c in enumerate(remote):
+            unb = []
+            for l in slice_locals(fn, c.args[0], strict=True):
+                for node, kind, pl in fn.defs().get(l, []):
+                    if node not in from_none:
+                        continue
+                    if kind == "call":
+                        d = fn.call_at(node)
+                        if re.search(r"cmp::min$|Ord>?::min$", d.name) and any(isinstance(fn.const_value(a), int) or any(r[0] == "const" for r in fn.roots(a)) and not any(r[0] == "call" for r in fn.roots(a)) for a in d.args):
+                            continue
+                        unb.append(fn.site(node))
+                    elif kind == "assign" and pl["rv"]["r"] in ("use", "cast"):
+                        o = pl["rv"]["o"]
+                        q = o.get("m") or o.get("c")
+                        if q and q[0] in slice_locals(fn, c.args[0], strict=True):
+                            continue      # a copy inside the slice: its source is examined itself
+                        if isinstance(fn.const_value(o), int):
+                            continue
+                        unb.append(fn.site(node))
+                    else:
+                        unb.append(fn.site(node))
+            reach_alloc = c.node in from_none
+            ctx.ob("R04.1", "poll_next/alloc#%d-without-a-maximum-is-bounded-by-a-constant-step" % i, bool(none_edges) and (not reach_alloc or not unb), site=fn.site(c.node), cfg=fx.cfg,
+                   detail="definitions of the allocated size on the no-maximum edge that are not min(.., CONST): %s" % unb)
         # refusal tightness: the ReadFailure after the comparison only over size > max
         # the decoded size is what is stored as frame size
         st = [n for n, s in fn.assigns() if "".join(s["lhs"][1:]).endswith(".current_frame_size") and s["rv"]["r"] == "use"]
@@ -494,6 +528,38 @@ def r04_7(ctx, fx):
     ctx.anchor("R04.7", "close paths of Substream", n, 2, cfg=fx.cfg)
 
 
+def r04_10(ctx, fx):
+    """both send APIs feed one ordered stream: `send_framed` writes straight to the transport, while the Sink keeps accepted frames in
+    `pending_out_frames` / a partially written `pending_out_frame` until a flush completes.  Every direct transport write of
+    send_framed comes after a completed flush of the Sink, or on the edges where nothing is queued - otherwise `feed(a);
+    send_framed(b)` delivers b before a, and after a cancelled (timed out) Sink send the new frame lands in the middle of the
+    half-written one and the framing is lost for good."""
+    if True:
+        key = "substream::Substream::send_framed::{closure#0}"
+        fn = ctx.fn(fx, key, "R04.10")
+        if fn is None:
+            return
+        writes = [c.node for c in fn.calls(r"Substream::send_\w+_payload$|write_all(_chunks)?$|AsyncWriteExt::write\w*$|AsyncWrite>?::poll_write$|SendStream::write\w*$")
+                  if not c.from_macro]
+        ctx.anchor("R04.10", "send_framed: direct transport writes", len(writes), 2, cfg=fx.cfg)
+        flush = [c.node for c in fn.calls(r"Sink(<.*>)?>?::poll_flush$|SinkExt::flush$")]
+        e1, e2 = set(), set()
+        for c in fn.calls(r"option::Option(<.*>)?::is_some$|option::Option(<.*>)?::is_none$"):
+            if "pending_out_frame" in fn.recv(c) and "pending_out_frames" not in fn.recv(c):
+                for sw, t, f in fn.bool_tests(c.dest[0]):
+                    e1.add((sw, f if c.name.endswith("is_some") else t))
+        for c in fn.calls(r"VecDeque(<.*>)?::is_empty$"):
+            if "pending_out_frames" in fn.recv(c):
+                for sw, t, f in fn.bool_tests(c.dest[0]):
+                    e2.add((sw, t))
+        # a flush that is awaited: the write is reached only over the Ready / Continue continuation (the await loop re-polls on Pending)
+        always = bool(flush) and not any(x in fn.reach([fn.entry], avoid=flush) for x in writes)
+        guarded = bool(flush) and bool(e1) and bool(e2) and not any(x in fn.reach([fn.entry], avoid=flush, cut=e1) for x in writes) \
+            and not any(x in fn.reach([fn.entry], avoid=flush, cut=e2) for x in writes)
+        ctx.ob("R04.10", "send_framed/direct-write-only-after-the-sink-queue-is-flushed-or-empty", bool(writes) and (always or guarded), site=fn.site(writes[0]) if writes else fn.site(fn.entry), cfg=fx.cfg,
+               detail="flush calls: %d; unconditional flush: %s; guarded by both queue tests (pending_out_frame None: %d edges, pending_out_frames empty: %d edges): %s" % (len(flush), always, len(e1), len(e2), guarded))
+
+
 def r04_8(ctx, fx):
     """after a framing error the receiver does not continue with stale state: every `ReadFailure` that Stream::poll_next produces for a
     malformed / oversized length is preceded on all paths by a store that ends the stream (a flag that poll_next tests on entry) or
@@ -572,10 +638,10 @@ def run(ctx):
         r04_4(ctx, fx)
         r04_6(ctx, fx)
         r04_7(ctx, fx)
+        r04_10(ctx, fx)
         if cfg == "default":
             r04_8(ctx, fx)
             r04_9(ctx, fx)
         if cfg == "default":
             r04_5(ctx, fx)
     ctx.assume("tokio write_all / write_all_chunks write the whole buffer or fail; the transports' poll_write registers the waker when Pending")
-    ctx.assume("UnsignedVarint(None) means 'no maximum': allocation is then bounded only by the varint range (configuration choice)")
